@@ -46,11 +46,12 @@ def pa_instantiation(facts, owner, field='phase_accumulator'):
     raise InterpError('%s has no field %s' % (owner, field))
 
 
-def clamp_range(facts, conv_path):
-    """output range of a clamping From<f32> conversion over all f32 inputs incl. NaN and +-inf (R-CLAMP core)"""
+def clamp_range(facts, conv_path, finite_only=False):
+    """output range of a clamping From<f32> conversion over all f32 inputs incl. NaN and +-inf (R-CLAMP core);
+    finite_only: over the real inputs only (C17 is stated for finite arguments)"""
     lo_all, hi_all = INF, -INF
     details = []
-    for part, rng in (('real', (-INF, INF)), ('nan', None)):
+    for part, rng in ((('real', (-INF, INF)),) if finite_only else (('real', (-INF, INF)), ('nan', None))):
         it = Interp(facts)
         st = State()
         if rng is None:
@@ -99,14 +100,15 @@ class Dds:
         _FACTS[0] = facts
         self.tp_range = None
         self.sl_range = None
+        self.finite_inputs = False  # C17: the parameter ranges over finite arguments only
         self.need_levels = False    # switched on by the rules that read the latched levels (C01, C03)
 
     def invariants(self, it):
         """type invariants of the parameter newtypes, computed from their own conversion functions"""
         if self.tp_range is None:
-            lo, hi, _ = clamp_range(self.facts, '<synth_utils::adsr::TimePeriod as core::convert::From<f32>>::from')
+            lo, hi, _ = clamp_range(self.facts, '<synth_utils::adsr::TimePeriod as core::convert::From<f32>>::from', self.finite_inputs)
             self.tp_range = (lo, hi)
-            lo, hi, _ = clamp_range(self.facts, '<synth_utils::adsr::SustainLevel as core::convert::From<f32>>::from')
+            lo, hi, _ = clamp_range(self.facts, '<synth_utils::adsr::SustainLevel as core::convert::From<f32>>::from', self.finite_inputs)
             self.sl_range = (lo, hi)
 
         def mk(r):
@@ -218,8 +220,10 @@ def check_bits(res, facts, owners, which=('index', 'fraction', 'ramp')):
                    'fraction() = %r for acc = I*2^%d + L; expected L/(2^%d-1) or L/2^%d (position inside the cell only)' % (o.ret, f, f, f),
                    where_of(facts, PAF + 'fraction'), key='R-BITS:fraction:' + inst)
             n += 1
-        outs, _ = call_pa(dds, it, State_like(st), 'ramp', copy.deepcopy(pa), [], total, index) if 'ramp' in which else ([], None)
+        outs, _ = call_pa(dds, it, State_like(st), 'ramp', copy.deepcopy(pa), [], total, index) if ('ramp' in which or 'ramp_cast' in which) else ([], None)
         for o in sem_iter(outs):
+            if 'ramp' not in which:
+                continue        # 'ramp_cast': only the exactness of the int -> float conversion inside ramp() is judged (R-EXACT below)
             exp = (I.scale(1 << f) + L).scale(Fr(1, 1 << total))
             ok = o.status == 'returned' and isinstance(o.ret, Num) and o.ret.term == exp
             res.ob('R-BITS', inst + ' ramp()', ok, 'ramp() = %r; expected acc/2^%d' % (o.ret, total),
@@ -296,23 +300,30 @@ def table_checks(res, facts, which):
                'max table step %.5f' % float(step))
         res.extra['adsr_max_slope_per_cycle'] = {'attack': float(max(a[i + 1] - a[i] for i in range(n - 1)) * n), 'decay': float(max(d[i] - d[i + 1] for i in range(n - 1)) * n)}
         res.floor('adsr_table_cells', n, 1024)
-    if 'sine' in which:
+    if 'sine' in which or 'sine_accuracy' in which or 'sine_continuity' in which:
+        # 'sine_accuracy' (C10: values within tolerance of the sine) / 'sine_continuity' (C12: no glitch at the wrap, bounded
+        # slope) / 'sine' (both)
+        acc_ = 'sine' in which or 'sine_accuracy' in which
+        cont_ = 'sine' in which or 'sine_continuity' in which
         s = tb.get(T_SINE)
         res.ob('R-TABLE', 'sine table present', s is not None, 'SINE_TABLE not found')
         if s is None:
             return
         n = len(s)
         res.ob('R-TABLE', 'sine within [-1,1]', min(s) >= -1 and max(s) <= 1, 'min %s max %s' % (float(min(s)), float(max(s))), T_SINE)
-        res.ob('R-TABLE', 'sine wrap: |table[N-1] - table[0]| <= 1e-6', abs(s[-1] - s[0]) <= Fr(1, 10 ** 6), 'diff %s' % float(abs(s[-1] - s[0])), T_SINE)
-        worst = 0.0
-        for i in range(n):
-            j = (i + 1) % n
-            e0 = abs(float(s[i]) - math.sin(2 * math.pi * i / n))
-            e1 = abs(float(s[j]) - math.sin(2 * math.pi * (i + 1) / n))
-            worst = max(worst, max(e0, e1) + (2 * math.pi) ** 2 / (8 * n * n) + 1e-12)
-        res.ob('R-TABLE', 'sine interpolant within 0.0125 of sin(2*pi*phase) in every cell', worst <= 0.0125, 'worst cell bound %.5f' % worst, T_SINE)
+        if cont_:
+            res.ob('R-TABLE', 'sine wrap: |table[N-1] - table[0]| <= 1e-6', abs(s[-1] - s[0]) <= Fr(1, 10 ** 6), 'diff %s' % float(abs(s[-1] - s[0])), T_SINE)
+        if acc_:
+            worst = 0.0
+            for i in range(n):
+                j = (i + 1) % n
+                e0 = abs(float(s[i]) - math.sin(2 * math.pi * i / n))
+                e1 = abs(float(s[j]) - math.sin(2 * math.pi * (i + 1) / n))
+                worst = max(worst, max(e0, e1) + (2 * math.pi) ** 2 / (8 * n * n) + 1e-12)
+            res.ob('R-TABLE', 'sine interpolant within 0.0125 of sin(2*pi*phase) in every cell', worst <= 0.0125, 'worst cell bound %.5f' % worst, T_SINE)
         slope = max(abs(float(s[(i + 1) % n] - s[i])) for i in range(n)) * n
-        res.ob('R-TABLE', 'sine max cell slope <= 2*pi*1.002 (incl. the wrap cell)', slope <= 2 * math.pi * 1.002, 'max slope %.6f vs %.6f' % (slope, 2 * math.pi * 1.002), T_SINE)
+        if cont_:
+            res.ob('R-TABLE', 'sine max cell slope <= 2*pi*1.002 (incl. the wrap cell)', slope <= 2 * math.pi * 1.002, 'max slope %.6f vs %.6f' % (slope, 2 * math.pi * 1.002), T_SINE)
         res.extra['sine_max_slope'] = slope
         res.floor('sine_table_cells', n, 1024)
 
@@ -583,6 +594,7 @@ def inc_spec(total, period, fs):
 
 def check_tick(res, facts, prop):
     dds = Dds(facts)
+    dds.finite_inputs = prop == 'C17'
     dds.need_levels = prop in ('C01', 'C03')
     total, index = pa_instantiation(facts, ADSR)
     mask = (1 << total) - 1
@@ -626,7 +638,10 @@ def check_tick(res, facts, prop):
             # entered in order and only when the accumulated phase wraps (a missed wrap restarts the curve from its start
             # level: non-monotone and a step), and a new phase starts at phase 0 (else the new curve starts in mid-air).
             full = prop == 'C02'
-            timing = prop in ('C02', 'C01')     # the shape statement needs every phase to progress at the programmed rate and to end
+            # how fast a phase runs and that it ends are C02's ("lasts the configured time") and C17's ("reaches its sustain
+            # level ... after finitely many ticks") statements; C01 describes the value as a function of the position in the
+            # phase and is not judged on the rate
+            timing = prop == 'C02'
             # C17 ("every envelope ... reaches its sustain level, and every release reaches rest, after finitely many ticks"):
             # only what termination needs — legal order of the phases, a wrap is never missed, strict progress while
             # staying, increment >= 1, the unchecked addition fits.  How long a phase lasts is C02's business.
@@ -675,6 +690,16 @@ def check_tick(res, facts, prop):
                 if live:
                     res.ob('R-FSM', inst0 + '->stay|progress', o.ctx.decide(cmp_term('Gt', got_acc, acc0)) is True,
                            'accumulator after a non-wrapping tick = %r: not provably above the accumulator before (%r), the phase may never end' % (got_acc, acc0), where, key='R-FSM:%s:stay-progress' % inst0)
+            elif live:
+                # termination only needs the envelope to end up AT its target level: a jump ahead in the same chain
+                # (Attack -> Sustain) or into a resting state whose output already equals the level the chain was heading for
+                # (Decay -> AtRest on a path where the sustain level is 0) still "reaches its sustain level / rest"
+                fwd = (state, s1) in (('Attack', 'Sustain'),)
+                if not fwd and s1 in ('AtRest', 'Sustain') and isinstance(post.get('value'), Num):
+                    tgt = ZERO if state == 'Release' else post.get('sustain_level').fields[0].term
+                    want = ZERO if s1 == 'AtRest' else tgt
+                    fwd = o.ctx.decide(cmp_term('Eq', tgt, want)) is True and (state != 'Release' or s1 == 'AtRest')
+                res.ob('R-FSM', inst0 + '->%s' % s1, fwd, 'transition %s -> %s on tick does not lead to the level the envelope was heading for' % (state, s1), where, key='R-FSM:%s:illegal' % inst0)
             else:
                 res.ob('R-FSM', inst0 + '->%s' % s1, False, 'illegal transition %s -> %s on tick' % (state, s1), where, key='R-FSM:%s:illegal' % inst0)
             if not (timing or live):
@@ -684,7 +709,7 @@ def check_tick(res, facts, prop):
                 res.ob('R-FSM', inst0 + '->%s|writes' % s1, set(ch) <= allowed, 'unexpected writes: %s' % sorted(set(ch) - allowed), where, key='R-FSM:%s:%s:writes' % (inst0, s1))
             # liveness: increment >= 1 for every legal time and sample rate
             lo, hi = o.ctx.rng(inc1.term)
-            res.ob('R-INC', inst0 + '->%s|increment >= 1' % s1, lo >= 1, 'increment range [%s, %s] over time in %s s and fs in [%d,%d] Hz: a zero increment never ends the phase' % (lo, hi, [float(x) for x in dds.tp_range], FS_MIN, FS_MAX), where, key='R-INC:%s:%s:live' % (inst0, s1))
+            res.ob('R-INC', inst0 + '->%s|increment >= 1' % s1, lo >= 1, 'increment range [%s, %s] over time in %s s and fs in [%d,%d] Hz: a zero increment never ends the phase' % (lo, hi, [float(x) if x is not None else 'unbounded (NaN reaches the stored time)' for x in dds.tp_range], FS_MIN, FS_MAX), where, key='R-INC:%s:%s:live' % (inst0, s1))
             res.ob('R-INC', inst0 + '->%s|acc+inc fits u32' % s1, Fr(mask) + hi <= 2 ** 32 - 1, 'max increment %s' % hi, where, key='R-INC:%s:%s:fits' % (inst0, s1))
     res.floor('tick_outcomes', n, 8)
     return n
@@ -731,7 +756,7 @@ def check_pa_methods(res, facts, owner, prop):
     for o in sem_iter(it.run(st2)):
         r = o.ret
         ok = o.status == 'returned' and isinstance(r, StructV) and (not r.has('rollover_mask') or r.get('rollover_mask').term == Poly.const(mask)) and r.get('accumulator').term == ZERO \
-            and r.get('increment').term == ZERO and bool_of(o.ctx, r.get('rolled_over')) is False and r.get('sample_rate_hz').term == fs.term
+            and r.get('increment').term == ZERO and bool_of(o.ctx, r.get('rolled_over')) is False and (prop == 'C17' or r.get('sample_rate_hz').term == fs.term)
         res.ob('R-PHASE', inst0 + ' new()', ok, 'new() = %r' % (r,), where_of(facts, PAF + 'new'), key='R-PHASE:new:' + inst0)
         n += 1
     res.absorb(it)
@@ -909,6 +934,66 @@ def check_lfo_wrappers(res, facts):
 # ---------------------------------------------------------------------------------------
 # R-WAVE on Lfo::get
 
+def _is_linear(p, atom):
+    for m in p.t:
+        for a, pw in m:
+            if a == atom and pw != 1:
+                return False
+        if sum(1 for a, _ in m if a == atom) and len(m) > 1:
+            return False
+    return True
+
+
+def sine_tolerance(facts, ctx, got, irange, n_tab, total, index, tol=Fr(125, 10000)):
+    """worst |got - sin(2 pi phase)| over the cells irange of the path `ctx`, got a term over (self.pa.I, self.pa.L):
+    for every cell the range of `got` over the in-cell position L is compared with the range of the sine over the cell
+    (sound upper bound of the pointwise error).  Returns (worst, [cells over tol], cells evaluated)."""
+    from ..terms import rebuild
+    Isym = ('sym', 'self.pa.I')
+    tables = {T_SINE: facts.tables.get(T_SINE, [])}
+    worst = 0.0
+    bad = []
+    ncell = 0
+    for i in range(irange[0], irange[1] + 1):
+        c = ctx.copy()
+        if c.assume(cmp_term('Eq', Poly.atom(Isym), i)) is False:
+            continue        # this path does not cover cell i
+        c.ranges[Isym] = (Fr(i), Fr(i))
+        g = rebuild(got, {Isym: Poly.const(i)}, c, tables)
+        glo, ghi = c.rng(g)
+        if glo in (INF, -INF) or ghi in (INF, -INF):
+            bad.append(i)
+            worst = float('inf')
+            ncell += 1
+            continue
+        p0, p1 = i / n_tab, (i + 1) / n_tab
+        s0, s1 = math.sin(2 * math.pi * p0), math.sin(2 * math.pi * p1)
+        Lsym = ('sym', 'self.pa.L')
+        if g.atoms() <= {Lsym} and _is_linear(g, Lsym):
+            # g is a straight line over the cell: error at both ends plus the sagitta of the sine arc over one cell
+            lmax = (1 << (total - index)) - 1
+            e0 = abs(float(g.subst({Lsym: Poly.const(0)}).const_value()) - s0)
+            pl = (i * (1 << (total - index)) + lmax) / (1 << total)
+            e1 = abs(float(g.subst({Lsym: Poly.const(lmax)}).const_value()) - math.sin(2 * math.pi * pl))
+            err = max(e0, e1) + (2 * math.pi / n_tab) ** 2 / 8
+            worst = max(worst, err)
+            ncell += 1
+            if err > float(tol) + 1e-9:
+                bad.append(i)
+            continue
+        slo, shi = min(s0, s1), max(s0, s1)
+        if p0 <= 0.25 <= p1:
+            shi = 1.0
+        if p0 <= 0.75 <= p1:
+            slo = -1.0
+        err = max(float(ghi) - slo, shi - float(glo))
+        worst = max(worst, err)
+        ncell += 1
+        if err > float(tol) + 1e-9:
+            bad.append(i)
+    return worst, bad, ncell
+
+
 def check_waves(res, facts, prop):
     dds = Dds(facts)
     total, index = pa_instantiation(facts, LFO)
@@ -977,6 +1062,15 @@ def check_waves(res, facts, prop):
                     else:
                         spec = lin(tbl(T_SINE, n_tab - 1), tbl(T_SINE, 0), F)
                         g2 = renorm_tbl(got.subst({('sym', 'self.pa.I'): Poly.const(n_tab - 1)}), o.ctx)
-                    res.ob('R-INTERP', inst, g2 == spec, 'Sine = %r; expected %r (neighbour = next cell, wrapping to cell 0 after the last)' % (g2, spec), where, key='R-INTERP:' + inst)
+                    if prop == 'C10':
+                        # C10 states a tolerance ("within two table steps (0.0125) of sin(2*pi*phase)"), not the interpolation
+                        # scheme (that is C12's): evaluate the extracted formula cell by cell against the sine itself
+                        worst, bad, ncell = sine_tolerance(facts, o.ctx, got, irange, n_tab, total, index)
+                        res.ob('R-SINE', inst, not bad and ncell >= 1,
+                               'Sine = %r: |value - sin(2*pi*phase)| <= 0.0125 over every table cell of this path (worst %.6f over %d cells%s)'
+                               % (got, worst, ncell, ('; exceeded in cell(s) %s' % bad[:4]) if bad else ''), where, key='R-SINE:' + inst)
+                        res.extra['sine_cells_evaluated'] = res.extra.get('sine_cells_evaluated', 0) + ncell
+                    else:
+                        res.ob('R-INTERP', inst, g2 == spec, 'Sine = %r; expected %r (neighbour = next cell, wrapping to cell 0 after the last)' % (g2, spec), where, key='R-INTERP:' + inst)
     res.floor('wave_outcomes', n, 5 if prop == 'C12' else (1 if prop == 'C11' else 9))
     return n
